@@ -609,7 +609,7 @@ class OwnAnalyzer:
             # a static constructor that disposes of (a field of) one of its arguments on every path - a grow/shrink helper that
             # moves the old block into the new one or releases it - takes that block in both outcomes
             if cn in self.u.functions and self.u.functions[cn].static:
-                disposed = _always_releases_param(self.u, self.u.functions[cn])
+                disposed = _always_releases_param(self.u, self.u.functions[cn], null_stores_ok=True)
                 if disposed:
                     st = st.copy()
                     for (pi, f) in disposed:
@@ -701,11 +701,18 @@ class OwnAnalyzer:
                 for s2 in outs:
                     keys = [k for k in s2.vals if k[0] == 'lf' and k[1] == did and s2.vals[k][0] == 'tok']
                     cands = [s2]
+                    must = set()
+                    if cn in self.u.functions and self.u.functions[cn].body is not None:
+                        ck = (id(self.u), cn)
+                        if ck not in OwnAnalyzer._must_cache:
+                            OwnAnalyzer._must_cache[ck] = _always_releases_param(self.u, self.u.functions[cn], null_stores_ok=True)
+                        must = OwnAnalyzer._must_cache[ck]
                     for k in keys:
                         more = []
                         for s3 in cands:
-                            more.append(s3)
-                            if cn is not None and cn in self.u.functions or cn in self.units_functions():
+                            if (i, k[2]) not in must:
+                                more.append(s3)        # (a callee that disposes of the field on every path leaves no other outcome)
+                            if (cn is not None and cn in self.u.functions or cn in self.units_functions()) and self.may_release_through(cn, i, k[2]):
                                 s4 = s3.copy()
                                 t = s4.vals[k][1]
                                 s4.tok[t] = 'released'
@@ -735,6 +742,48 @@ class OwnAnalyzer:
                     nxt.append(s3)
                 outs = nxt
         return [(s2, UNK) for s2 in outs]
+
+    _rel_cache = {}
+    _must_cache = {}
+
+    def may_release_through(self, cn, idx, field=None, seen=()):
+        """can the callee (or something it hands the parameter on to) release or replace what the fields of *param idx hold?
+        It can if it stores to a field of the parameter, calls a release / reallocate hook or a releasing function, or passes
+        the parameter on to a function that can.  update_offset(&p) only reads."""
+        key = (id(self.u), cn, idx, field)
+        cache = OwnAnalyzer._rel_cache
+        if key in cache:
+            return cache[key]
+        callee = self.u.functions.get(cn)
+        if callee is None or callee.body is None or idx >= len(callee.params) or cn in seen:
+            return True
+        pd = callee.params[idx]['d']
+        out = False
+        for x in callee.nodes():
+            if x.get('k') == 'bin' and x.get('op') in ASSIGN_OPS:
+                l = strip_casts(x['l'])
+                b = l
+                while b.get('k') in ('mem', 'idx'):
+                    b = strip_casts(b['b'])
+                if b.get('k') == 'ref' and b.get('d') == pd and l is not b and (field is None or l.get('f') == field or l.get('k') != 'mem'):
+                    out = True
+            elif x.get('k') == 'call':
+                cn2 = callee_name(x)
+                if cn2 is None and indirect_field(x) in ('deallocate', 'reallocate'):
+                    out = True
+                elif cn2 in RELEASES or cn2 in ('free', 'realloc'):
+                    out = True
+                else:
+                    for j, a_ in enumerate(x.get('args', [])):
+                        a0 = strip_casts(a_)
+                        if a0.get('k') == 'ref' and a0.get('d') == pd:
+                            if cn2 not in self.u.functions or self.may_release_through(cn2, j, field, seen + (cn,)):
+                                if cn2 in self.u.functions or cn2 is None:
+                                    out = True
+            if out:
+                break
+        cache[key] = out
+        return out
 
     def inlinable(self, cn):
         callee = self.u.functions[cn]
@@ -1830,7 +1879,7 @@ def _path_vars(e):
     return {x['d'] for x in walk(e) if x.get('k') == 'ref' and x.get('dk') in ('local', 'param', 'var', 'global', None) and 'd' in x}
 
 
-def _always_releases_param(u, fn):
+def _always_releases_param(u, fn, null_stores_ok=False):
     """What fn certainly disposes of: [(parameter index, field or None)] such that every path to fn's end passes a release (or a
     reallocate) of that parameter, or of that field of it, and fn never stores to the parameter / the field."""
     out = set()
@@ -1858,7 +1907,8 @@ def _always_releases_param(u, fn):
         if any(strip_casts(a['l']).get('k') == 'ref' and strip_casts(a['l']).get('d') == d for a in assignments(fn)):
             continue
         if f is not None and any(strip_casts(a['l']).get('k') == 'mem' and strip_casts(a['l'])['f'] == f and
-                                 strip_casts(strip_casts(a['l'])['b']).get('d') == d for a in assignments(fn)):
+                                 strip_casts(strip_casts(a['l'])['b']).get('d') == d and
+                                 not (null_stores_ok and a['op'] == '=' and is_null_const(a['r'])) for a in assignments(fn)):
             continue
         cfg = cfg or fn.cfg()
         stops = {node_containing(cfg, c).id for c in calls}
